@@ -10,22 +10,22 @@ def histories(tier, rng):
     n = 0
     L = 5 if tier == "quick" else 6
     share_ops = ["(sub)", "(unsub 0)", "(unsub 1)", "(src (n 1))", "(src c)", "(src (e 3))", "(closed 0)"]
-    pub_ops = ["(sub)", "(unsub 0)", "(src (n 1))", "(src c)", "connect"]
+    pub_ops = ["(sub)", "(unsub 0)", "(src (n 1))", "(src c)", "connect", "subself"]
     for mode, ops in (("share", share_ops), ("publish", pub_ops)):
         for k in range(L + 1):
             for h in itertools.product(ops, repeat=k):
-                if sum(1 for x in h if x == "(sub)") > 3:
+                if sum(1 for x in h if x in ("(sub)", "subself")) > 3:
                     continue
                 n += 1
                 form = "local" if n % 2 else "threads"
                 cases.append(("p%d" % n, "(case p%d share %s hot %s (ops %s))" % (n, form, mode, " ".join(h)),
                               {"kind": "hot", "mode": mode, "len": k}))
     # cold sources: the script is played when the source is subscribed
-    cold_ops = ["(sub)", "(unsub 0)", "(unsub 1)", "(closed 0)", "(closed 1)", "connect"]
+    cold_ops = ["(sub)", "(unsub 0)", "(unsub 1)", "(closed 0)", "(closed 1)", "connect", "subself"]
     for src in COLD:
         for mode in ("share", "publish"):
             for k in range(5):
-                for h in itertools.product(cold_ops if mode == "publish" else cold_ops[:-1], repeat=k):
+                for h in itertools.product(cold_ops if mode == "publish" else cold_ops[:-2], repeat=k):
                     n += 1
                     form = "local" if n % 2 else "threads"
                     cases.append(("p%d" % n, "(case p%d share %s %s %s (ops %s))" % (n, form, src, mode, " ".join(h)),
@@ -60,7 +60,7 @@ def run(tier, seed, replay=None):
     c["generator_distribution"] = hist
     c["exhaustive"] = True
     c["rule"] = ("all histories of <= %d operations over {subscribe a clone / fork, unsubscribe subscription 0 / 1, a next / complete / error on the hot "
-                 "source, is_closed, connect} for share and for publish (at most three subscribers), all histories <= 4 over six cold scripts, and random "
+                 "source, is_closed, connect, subscribe the published value itself} for share and for publish (at most three subscribers), all histories <= 4 over six cold scripts, and random "
                  "histories of 6-13 operations with three subscribers; upstream of the shared point a counted subscription and a tap: observation = when "
                  "the source is subscribed, every item passing the tap, every delivery per subscriber, every is_closed answer, with a marker after each "
                  "operation; specification = the ideal machine (the source is let go when the last subscriber leaves), model = the code as it is; a case "
